@@ -25,7 +25,7 @@ DECIDING = ["requests_vs_fresh"]
 
 def cases(ctx):
     rng = ctx.rng
-    for cfg in ipgen.configs(rng, ctx.per_shard(ctx.pick(500, 12000)), quick=ctx.quick):
+    for cfg in ipgen.configs(rng, ctx.per_shard(ctx.pick(500, 36000)), quick=ctx.quick):
         n = rng.choice([1, 2, 5, 20, 60, 200, 400]) if cfg["fam"] == 4 else rng.choice([1, 3, 10, 40])
         yield {"kind": "hist", "cfg": cfg, "n": n, "hseed": rng.getrandbits(32)}
     for cfg in ipgen.configs(rng, ctx.pick(1, 6), fam=4, quick=ctx.quick):
@@ -35,7 +35,7 @@ def cases(ctx):
         yield {"kind": "hist", "cfg": cfg, "n": 300, "hseed": rng.getrandbits(32), "warmup": ctx.pick(6000, 30000)}
     for fcfg in ipref.file_configs(rng, ctx.per_shard(ctx.pick(12, 400)), quick=ctx.quick):
         yield {"kind": "nosalt_dir", "fcfg": fcfg, "lseed": rng.getrandbits(32), "bad": rng.choice([1, 2, 2, 3])}
-    for fcfg in ipref.file_configs(rng, ctx.per_shard(ctx.pick(30, 900)), quick=ctx.quick):
+    for fcfg in ipref.file_configs(rng, ctx.per_shard(ctx.pick(30, 2400)), quick=ctx.quick):
         yield {"kind": "files", "fcfg": fcfg, "lseed": rng.getrandbits(32), "nfiles": rng.randint(2, 6),
                "cli": (not ctx.quick) and rng.random() < 0.1}
 
